@@ -383,117 +383,156 @@ def readUInts : Nat → List Tok → R (List Nat)
       | .error e => .error e
       | .ok (l, ts) => .ok (v :: l, ts)
 
-def readHeader (cd : Codec) (ts : List Tok) : R Hdr :=
+/-- format letter, options, vbtol -/
+def readH1 (cd : Codec) (ts : List Tok) : R Hdr :=
   match ts with
   | .ch t :: ts =>
     if t ≠ .fmtG ∧ t ≠ .fmtB then .error .badFormat else
-    let h : Hdr := { hdr0 with format := if t = .fmtB then 1 else 0 }
-    -- options
-    let (on, ts) := readOptUInt ts
-    let h := { h with nopts := on.getD h.nopts }
-    if h.nopts > 9 then .error .tooManyOptions else
-    let (ol, ts) := readOpts cd h.nopts ts
-    let h := { h with opts := ol ++ h.opts.drop ol.length }
-    let (h, ts) := (if h.opts[1]? = some (3 : Int) then
-        (match ts with
-         | .vbt x :: ts => ({ h with vbtol := cd.vb x }, ts)
-         | ts => (h, ts))
-      else (h, ts))
+    let on := readOptUInt ts
+    let nopts := on.1.getD hdr0.nopts
+    if nopts > 9 then .error .tooManyOptions else
+    let ol := readOpts cd nopts on.2
+    let optsR := ol.1 ++ hdr0.opts.drop ol.1.length
+    let vb : Dbl × List Tok :=
+      if optsR[1]? = some (3 : Int) then
+        (match ol.2 with
+         | .vbt x :: ts => (cd.vb x, ts)
+         | ts => (hdr0.vbtol, ts))
+      else (hdr0.vbtol, ol.2)
+    match skipLine vb.2 with
+    | .error e => .error e
+    | .ok ts => .ok ({ hdr0 with format := if t = .fmtB then 1 else 0, nopts := nopts, opts := optsR, vbtol := vb.1 }, ts)
+  | _ => .error .badFormat
+
+/-- problem dimensions -/
+def readH2 (h : Hdr) (ts : List Tok) : R Hdr :=
+  match readUInts 3 ts with
+  | .ok ([nv, nac, no], ts) =>
+    let o1 := readOptUInt ts
+    let o2 := if o1.1.isSome then readOptUInt o1.2 else (none, o1.2)
+    let o3 := if o1.1.isSome ∧ o2.1.isSome then readOptUInt o2.2 else (none, o2.2)
+    match skipLine o3.2 with
+    | .error e => .error e
+    | .ok ts => .ok ({ h with nv := nv, nac := nac, no := no, nr := o1.1.getD 0, ne := o2.1.getD 0, nlc := o3.1.getD 0 }, ts)
+  | .ok _ => .error .expectedUInt
+  | .error e => .error e
+
+/-- nonlinear and complementarity information -/
+def readH3 (h : Hdr) (ts : List Tok) : R Hdr :=
+  match readUInts 2 ts with
+  | .ok ([nnlc, nnlo], ts) =>
+    let c1 := readOptUInt ts
+    let c2 := if c1.1.isSome then readOptUInt c1.2 else (none, c1.2)
+    let c3 := if c1.1.isSome ∧ c2.1.isSome then readOptUInt c2.2 else (none, c2.2)
+    let c4 := if c1.1.isSome ∧ c2.1.isSome ∧ c3.1.isSome then readOptUInt c3.2 else (none, c3.2)
+    match skipLine c4.2 with
+    | .error e => .error e
+    | .ok ts => .ok ({ h with nnlc := nnlc, nnlo := nnlo, ncc := c1.1.getD 0 + c2.1.getD 0, nnlcc := c2.1.getD 0,
+                              ncdi := c3.1.getD 0, ncnz := c4.1.getD 0 }, ts)
+  | .ok _ => .error .expectedUInt
+  | .error e => .error e
+
+/-- network constraints -/
+def readH4 (h : Hdr) (ts : List Tok) : R Hdr :=
+  match readUInts 2 ts with
+  | .ok ([nnnc, nlnc], ts) =>
     match skipLine ts with
     | .error e => .error e
-    | .ok ts =>
-    -- line 2
-    match readUInts 3 ts with
-    | .ok ([nv, nac, no], ts) =>
-      let (o1, ts) := readOptUInt ts
-      let (o2, ts) := if o1.isSome then readOptUInt ts else (none, ts)
-      let (o3, ts) := if o1.isSome ∧ o2.isSome then readOptUInt ts else (none, ts)
-      let h := { h with nv := nv, nac := nac, no := no, nr := o1.getD 0, ne := o2.getD 0, nlc := o3.getD 0 }
-      match skipLine ts with
-      | .error e => .error e
-      | .ok ts =>
-      -- line 3
-      match readUInts 2 ts with
-      | .ok ([nnlc, nnlo], ts) =>
-        let (c1, ts) := readOptUInt ts
-        let (c2, ts) := if c1.isSome then readOptUInt ts else (none, ts)
-        let (c3, ts) := if c1.isSome ∧ c2.isSome then readOptUInt ts else (none, ts)
-        let (c4, ts) := if c1.isSome ∧ c2.isSome ∧ c3.isSome then readOptUInt ts else (none, ts)
-        let h := { h with nnlc := nnlc, nnlo := nnlo, ncc := c1.getD 0 + c2.getD 0, nnlcc := c2.getD 0,
-                          ncdi := c3.getD 0, ncnz := c4.getD 0 }
-        match skipLine ts with
-        | .error e => .error e
-        | .ok ts =>
-        -- line 4, 5
-        match readUInts 2 ts with
-        | .ok ([nnnc, nlnc], ts) =>
-          match skipLine ts with
-          | .error e => .error e
-          | .ok ts =>
-          match readUInts 2 ts with
-          | .ok ([nlvc, nlvo], ts) =>
-            let (b, ts) := readOptUInt ts
-            match skipLine ts with
-            | .error e => .error e
-            | .ok ts =>
-            -- line 6
-            match readUInts 2 ts with
-            | .ok ([nlnv, nf], ts) =>
-              let (ak, ts) := readOptUInt ts
-              if ak.getD 0 > 5 then .error .badArith else
-              let (fl, ts) := if ak.isSome then readOptUInt ts else (none, ts)
-              let h := { h with nnnc := nnnc, nlnc := nlnc, nlvc := nlvc, nlvo := nlvo, nlvb := b.getD 0,
-                                nlnv := nlnv, nf := nf, arith := ak.getD h.arith, flags := fl.getD h.flags }
-              match skipLine ts with
-              | .error e => .error e
-              | .ok ts =>
-              -- line 7 (three more numbers only if num_nl_vars_in_both was present)
-              match readUInts (if b.isSome then 5 else 2) ts with
-              | .ok (nlbv :: nliv :: rest, ts) =>
-                let h := { h with nlbv := nlbv, nliv := nliv, nnlib := rest.getD 0 0, nnlic := rest.getD 1 0,
-                                  nnlio := rest.getD 2 0 }
-                match skipLine ts with
-                | .error e => .error e
-                | .ok ts =>
-                -- line 8, 9
-                match readUInts 2 ts with
-                | .ok ([nzc, nzo], ts) =>
-                  match skipLine ts with
-                  | .error e => .error e
-                  | .ok ts =>
-                  match readUInts 2 ts with
-                  | .ok ([mcl, mvl], ts) =>
-                    match skipLine ts with
-                    | .error e => .error e
-                    | .ok ts =>
-                    -- line 10: accumulating, with the int overflow test of `ReadUInt(int &accumulator)`
-                    match readUInts 5 ts with
-                    | .ok ([a, b', c, d, e], ts) =>
-                      if nv + a + b' + c + d + e > 2147483647 then .error .overflow else
-                      match skipLine ts with
-                      | .error e => .error e
-                      | .ok ts =>
-                        .ok ({ h with nzc := nzc, nzo := nzo, mcl := mcl, mvl := mvl,
-                                      ceb := a, cec := b', ceo := c, cesc := d, ceso := e }, ts)
-                    | .ok _ => .error .expectedUInt
-                    | .error e => .error e
-                  | .ok _ => .error .expectedUInt
-                  | .error e => .error e
-                | .ok _ => .error .expectedUInt
-                | .error e => .error e
-              | .ok _ => .error .expectedUInt
-              | .error e => .error e
-            | .ok _ => .error .expectedUInt
-            | .error e => .error e
-          | .ok _ => .error .expectedUInt
-          | .error e => .error e
-        | .ok _ => .error .expectedUInt
-        | .error e => .error e
-      | .ok _ => .error .expectedUInt
-      | .error e => .error e
-    | .ok _ => .error .expectedUInt
+    | .ok ts => .ok ({ h with nnnc := nnnc, nlnc := nlnc }, ts)
+  | .ok _ => .error .expectedUInt
+  | .error e => .error e
+
+/-- nonlinear variables; returns also whether num_nl_vars_in_both was present -/
+def readH5 (h : Hdr) (ts : List Tok) : R (Hdr × Bool) :=
+  match readUInts 2 ts with
+  | .ok ([nlvc, nlvo], ts) =>
+    let b := readOptUInt ts
+    match skipLine b.2 with
     | .error e => .error e
-  | _ => .error .badFormat
+    | .ok ts => .ok (({ h with nlvc := nlvc, nlvo := nlvo, nlvb := b.1.getD 0 }, b.1.isSome), ts)
+  | .ok _ => .error .expectedUInt
+  | .error e => .error e
+
+/-- linear network variables, functions, arith kind, flags -/
+def readH6 (h : Hdr) (ts : List Tok) : R Hdr :=
+  match readUInts 2 ts with
+  | .ok ([nlnv, nf], ts) =>
+    let ak := readOptUInt ts
+    if ak.1.getD 0 > 5 then .error .badArith else
+    let fl := if ak.1.isSome then readOptUInt ak.2 else (none, ak.2)
+    match skipLine fl.2 with
+    | .error e => .error e
+    | .ok ts => .ok ({ h with nlnv := nlnv, nf := nf, arith := ak.1.getD h.arith, flags := fl.1.getD h.flags }, ts)
+  | .ok _ => .error .expectedUInt
+  | .error e => .error e
+
+/-- discrete variables (three more numbers only if num_nl_vars_in_both was present) -/
+def readH7 (h : Hdr) (both : Bool) (ts : List Tok) : R Hdr :=
+  match readUInts (if both then 5 else 2) ts with
+  | .ok (nlbv :: nliv :: r, ts) =>
+    match skipLine ts with
+    | .error e => .error e
+    | .ok ts => .ok ({ h with nlbv := nlbv, nliv := nliv, nnlib := r.getD 0 0, nnlic := r.getD 1 0, nnlio := r.getD 2 0 }, ts)
+  | .ok _ => .error .expectedUInt
+  | .error e => .error e
+
+def readH8 (h : Hdr) (ts : List Tok) : R Hdr :=
+  match readUInts 2 ts with
+  | .ok ([nzc, nzo], ts) =>
+    match skipLine ts with
+    | .error e => .error e
+    | .ok ts => .ok ({ h with nzc := nzc, nzo := nzo }, ts)
+  | .ok _ => .error .expectedUInt
+  | .error e => .error e
+
+def readH9 (h : Hdr) (ts : List Tok) : R Hdr :=
+  match readUInts 2 ts with
+  | .ok ([mcl, mvl], ts) =>
+    match skipLine ts with
+    | .error e => .error e
+    | .ok ts => .ok ({ h with mcl := mcl, mvl := mvl }, ts)
+  | .ok _ => .error .expectedUInt
+  | .error e => .error e
+
+/-- common expressions, accumulating with the int overflow test of `ReadUInt(int &accumulator)` -/
+def readH10 (h : Hdr) (ts : List Tok) : R Hdr :=
+  match readUInts 5 ts with
+  | .ok ([a, b, c, d, e], ts) =>
+    if h.nv + a + b + c + d + e > 2147483647 then .error .overflow else
+    match skipLine ts with
+    | .error e => .error e
+    | .ok ts => .ok ({ h with ceb := a, cec := b, ceo := c, cesc := d, ceso := e }, ts)
+  | .ok _ => .error .expectedUInt
+  | .error e => .error e
+
+def readHeader (cd : Codec) (ts : List Tok) : R Hdr :=
+  match readH1 cd ts with
+  | .error e => .error e
+  | .ok (h, ts) =>
+  match readH2 h ts with
+  | .error e => .error e
+  | .ok (h, ts) =>
+  match readH3 h ts with
+  | .error e => .error e
+  | .ok (h, ts) =>
+  match readH4 h ts with
+  | .error e => .error e
+  | .ok (h, ts) =>
+  match readH5 h ts with
+  | .error e => .error e
+  | .ok ((h, both), ts) =>
+  match readH6 h ts with
+  | .error e => .error e
+  | .ok (h, ts) =>
+  match readH7 h both ts with
+  | .error e => .error e
+  | .ok (h, ts) =>
+  match readH8 h ts with
+  | .error e => .error e
+  | .ok (h, ts) =>
+  match readH9 h ts with
+  | .error e => .error e
+  | .ok (h, ts) => readH10 h ts
 
 /-! ## segments -/
 
